@@ -62,7 +62,10 @@ type W struct {
 	C  *Ctx
 	ID int
 	s  *slot
+	f  *os.File
 }
+
+var inflightDir = os.Getenv("VERIF_INFLIGHT_DIR")
 
 // Monitor is a registered monitor.
 type Monitor struct {
@@ -305,9 +308,15 @@ func (w *W) Begin(desc any) {
 	w.s.since = time.Now()
 	w.s.busy = true
 	w.s.mu.Unlock()
-	if p := os.Getenv("VERIF_INFLIGHT_DIR"); p != "" {
-		// fatal runtime errors (stack overflow, concurrent map writes) bypass recover(): persist the case.
-		os.WriteFile(filepath.Join(p, fmt.Sprintf("slot-%d.json", w.ID)), b, 0o644)
+	if inflightDir != "" {
+		// fatal runtime errors (stack overflow, concurrent map writes) bypass recover(): persist the
+		// case as "<8-digit length><json>" at offset 0 of the worker's slot file (one pwrite).
+		if w.f == nil {
+			w.f, _ = os.Create(filepath.Join(inflightDir, fmt.Sprintf("slot-%d.rec", w.ID)))
+		}
+		if w.f != nil {
+			w.f.WriteAt(append([]byte(fmt.Sprintf("%08d", len(b))), b...), 0)
+		}
 	}
 }
 
